@@ -61,6 +61,11 @@ def _c19_regen(repo=None):
     out = os.path.join(root, "coq", "gen", "Effects.v")
     p = subprocess.run([os.path.join(root, "harness", "effects", "regen.sh"), repo], env=env, timeout=600,
                        stdout=subprocess.PIPE, stderr=subprocess.PIPE, text=True)
+    if p.returncode == 3:
+        # the translator itself does not build: a broken tool, not a verdict about the tree
+        import sys
+        err = getattr(sys.modules.get("__main__"), "ToolError", RuntimeError)
+        raise err("harness/effects does not build: " + (p.stderr or p.stdout)[-1500:])
     if p.returncode != 0:
         # the tree does not load / type-check (the harness build reports that as its own violation) or the
         # toolchain is broken: the obligations must not be discharged against a stale file
@@ -70,10 +75,9 @@ def _c19_regen(repo=None):
         _c19_state["report"] = "effect translator failed: " + (p.stderr or p.stdout)[-1500:]
     else:
         rep = ""
-        # the report written by this very run: the newest one
-        reps = sorted(glob.glob(os.path.join(root, "build", "effects", "report-*.txt")), key=os.path.getmtime)
-        if reps:
-            rep = open(reps[-1]).read()
+        rf = os.path.join(root, "build", "effects", "report.txt" if repo == "/repo" else "report-scratch.txt")
+        if os.path.exists(rf):
+            rep = open(rf).read()
         bad = [l for l in rep.splitlines() if l.startswith(("SHARED-WRITE", "UNCLASSIFIED", "MISSING", "RESULT-ALIASES"))] + \
               [l for l in rep.splitlines() if l.startswith("GLOBAL-WRITER")]
         _c19_state["report"] = "effect model regenerated from %s:\n%s" % (repo, "\n".join(bad)[:2400])
